@@ -137,9 +137,12 @@ theorem CallCtx.transfer {P : BState → Nat → Prop} (hP : FrameClosed P) {s s
 structure RuleOK (P : BState → Nat → Prop) (r : BRule) : Prop where
   /-- K1: never raises (non-silent call from the loop) -/
   total : ∀ s line endLine, CallCtx P s line endLine → ∃ m s', r s line endLine false = .ok (m, s')
-  /-- K3: a match advances `state.line` past the start line, not beyond the end line -/
+  /-- K3: a match advances `state.line` past the start line, not beyond the line tables.  (Not "not beyond
+      `endLine`": a block quote whose last lines are empty returns with `state.line` at the next non-empty line
+      of the *document* — its nested loop's `skipEmptyLines` runs to `lineMax` — which can lie beyond the `endLine`
+      of an enclosing quote: `"> > \n> \n\nfoo"`.  The loop then simply stops.) -/
   progress : ∀ s line endLine s', CallCtx P s line endLine → r s line endLine false = .ok (true, s') →
-    line < s'.line ∧ s'.line ≤ endLine
+    line < s'.line ∧ s'.line ≤ s.lineMax
   /-- K2 (the part the loop needs): a miss leaves `state.line` alone -/
   miss : ∀ s line endLine s', CallCtx P s line endLine → r s line endLine false = .ok (false, s') → s'.line = s.line
   /-- K4: line tables, lineMax, blkIndent and level are restored on return -/
